@@ -51,6 +51,10 @@ def is_concrete(v):
 
 def term(v, want=None):
     """z3 term of a scalar value"""
+    if isinstance(v, z3.ExprRef):
+        if want == 'real' and v.sort() == IntSort:
+            return z3.ToReal(v)
+        return v
     if isinstance(v, Sym):
         t = v.t
         if want == 'real' and v.ty == 'int':
@@ -147,6 +151,28 @@ BOUNDS = {}    # z3 ast id -> (lo, hi)  for declared variables
 
 def declare_bounds(t, lo, hi):
     BOUNDS[t.get_id()] = (lo, hi)
+    _KEEP.append(t)
+
+
+def refine_bounds(t, lo=None, hi=None):
+    """a bound learnt from the path condition (per path: the registries are reset for every path)"""
+    l0, h0 = BOUNDS.get(t.get_id(), (None, None))
+    if lo is not None and (l0 is None or lo > l0):
+        l0 = lo
+    if hi is not None and (h0 is None or hi < h0):
+        h0 = hi
+    BOUNDS[t.get_id()] = (l0, h0)
+    _KEEP.append(t)
+
+
+def reset_path_state():
+    """all registries keyed by z3 ast ids hold facts of ONE path: cleared when a new path starts"""
+    BOUNDS.clear()
+    KNOWN_LEN.clear()
+    LEN_TERM.clear()
+    del LINKS[:]
+    del XOR8_FACTS[:]
+    del _KEEP[:]
 
 
 def bounds(t, depth=0):
@@ -524,9 +550,55 @@ KNOWN_LEN = {}      # z3 ast id -> python int (exact length of a bytes term)
 _KEEP = []          # keep terms alive so ast ids stay unique
 
 
+LEN_TERM = {}       # z3 ast id -> z3 Int term: symbolic length of a bytes term (companion length)
+LINKS = []          # (bytes term, Int term): Length(bytes term) = Int term; drained into the path context, which drops
+                    # the link of a term whose content is constrained nowhere (no long sequence has to be built then)
+
+
 def set_len(t, n):
     KNOWN_LEN[t.get_id()] = n
     _KEEP.append(t)
+
+
+def set_len_term(t, n):
+    """give the bytes term t the companion length n (an Int term)"""
+    n = z3.simplify(n) if isinstance(n, z3.ExprRef) else z3.IntVal(n)
+    if z3.is_int_value(n):
+        set_len(t, n.as_long())
+        return
+    LEN_TERM[t.get_id()] = n
+    _KEEP.append(t)
+    LINKS.append((t, n))
+
+
+def blen(t):
+    """length of a bytes/str term as an Int term, through known / companion lengths where they exist"""
+    tot = 0
+    parts = []
+    for c in flat_chunks(t):
+        n = known_len(c)
+        if n is not None:
+            tot += n
+            continue
+        lt = LEN_TERM.get(c.get_id())
+        parts.append(lt if lt is not None else _raw_len(c))
+    if not parts:
+        return z3.IntVal(tot)
+    if tot:
+        parts = [z3.IntVal(tot)] + parts
+    return parts[0] if len(parts) == 1 else z3.Sum(parts)
+
+
+def _raw_len(c):
+    if z3.is_app(c) and c.decl().kind() == z3.Z3_OP_ITE:
+        ch = c.children()
+        return z3.If(ch[0], blen(ch[1]), blen(ch[2]))
+    if z3.is_app(c) and c.decl().kind() == z3.Z3_OP_SEQ_EXTRACT:
+        # z3 semantics of seq.extract(s, o, n): empty unless 0 <= o < len(s) and n > 0, else min(n, len(s) - o) elements
+        s_, o, n = c.children()
+        L = blen(s_)
+        return z3.If(z3.And(o >= 0, o < L, n > 0), z3.If(n < L - o, n, L - o), z3.IntVal(0))
+    return z3.Length(c)
 
 
 def known_len(t):
@@ -581,19 +653,10 @@ def concretize_bytes(v):
 def bytes_len(v):
     if isinstance(v, (bytes, bytearray)):
         return len(v)
-    t = v.t
-    chunks = flat_chunks(t)
-    tot = 0
-    symparts = []
-    for c in chunks:
-        n = known_len(c)
-        if n is None:
-            symparts.append(z3.Length(c))
-        else:
-            tot += n
-    if not symparts:
-        return tot
-    return mk(z3.Sum([z3.IntVal(tot)] + symparts) if (tot or len(symparts) > 1) else symparts[0], 'int')
+    n = z3.simplify(blen(v.t))
+    if z3.is_int_value(n):
+        return n.as_long()
+    return mk(n, 'int')
 
 
 def seq_slice_term(t, lo, hi, sort=BytesSort):
@@ -636,14 +699,17 @@ def seq_slice_term(t, lo, hi, sort=BytesSort):
             pos = b
         if ok:
             return mk_concat(out, sort)
-    L = z3.Length(t)
+    L = blen(t) if sort == BytesSort else z3.Length(t)
     lo_t = z3.IntVal(0) if lo is None else (z3.IntVal(lo) if isinstance(lo, int) else lo)
     hi_t = L if hi is None else (z3.IntVal(hi) if isinstance(hi, int) else hi)
     # python clamping for non-negative bounds
     lo_c = z3.If(lo_t > L, L, lo_t)
     hi_c = z3.If(hi_t > L, L, hi_t)
-    n = z3.If(hi_c > lo_c, hi_c - lo_c, z3.IntVal(0))
-    return z3.SubSeq(t, lo_c, n)
+    n = z3.simplify(z3.If(hi_c > lo_c, hi_c - lo_c, z3.IntVal(0)))
+    r = z3.SubSeq(t, lo_c, n)
+    if sort == BytesSort:
+        set_len_term(r, n)
+    return r
 
 
 def norm_index(i, n, ctx):
@@ -687,9 +753,9 @@ def getitem(v, k, ctx):
         if isinstance(k, slice):
             if k.step is not None:
                 raise Unsupported('slice step')
-            lo, hi = slice_bounds(k.start, k.stop, z3.Length(v.t))
+            lo, hi = slice_bounds(k.start, k.stop, blen(v.t) if v.ty == 'bytes' else z3.Length(v.t))
             return mk(seq_slice_term(v.t, lo, hi, sort), v.ty)
-        n = z3.Length(v.t)
+        n = blen(v.t) if v.ty == 'bytes' else z3.Length(v.t)
         i = norm_index(term(k, 'int'), n, ctx)
         if ctx is not None:
             ctx.raise_if(sbool(z3.Or(i < 0, i >= n)), 'IndexError')
@@ -782,8 +848,8 @@ def identical(a, b):
         return False
     if isinstance(a, SymFn) and isinstance(b, SymFn):
         return sbool(a.ref == b.ref)
-    if isinstance(a, (Obj, PyList, PyDict, PySet, BuiltinType, ClassVal, FuncVal, Opaque, Closure)) or \
-       isinstance(b, (Obj, PyList, PyDict, PySet, BuiltinType, ClassVal, FuncVal, Opaque, Closure)):
+    if isinstance(a, (Obj, PyList, PyDict, PySet, BuiltinType, ClassVal, FuncVal, Opaque, Closure, SymSeq, SymMap)) or \
+       isinstance(b, (Obj, PyList, PyDict, PySet, BuiltinType, ClassVal, FuncVal, Opaque, Closure, SymSeq, SymMap)):
         if isinstance(a, ClassVal) and isinstance(b, ClassVal):
             return a.info is b.info
         return a is b
@@ -828,7 +894,8 @@ def equal(a, b):
                 r = and_(r, equal(x, y))
             return r
         if isinstance(a, SymSeq) and isinstance(b, SymSeq):
-            return sbool(a.t == b.t)
+            j = z3.Int('j!eq')
+            return sbool(z3.And(a.n == b.n, z3.ForAll([j], z3.Implies(z3.And(j >= 0, j < a.n), z3.Select(a.arr, j) == z3.Select(b.arr, j)))))
         raise Unsupported('== on mixed list shapes')
     if ta != tb:
         # different python types are never equal (int/bool/real handled above)
@@ -897,7 +964,7 @@ def truth_basic(v):
             return sbool(v.t != 0)
         if v.ty == 'real':
             return sbool(v.t != 0)
-        return sbool(z3.Length(v.t) > 0)
+        return sbool((blen(v.t) if v.ty == 'bytes' else z3.Length(v.t)) > 0)
     if isinstance(v, BitSet):
         return bitset_truth(v)
     if isinstance(v, (bool, int, str, bytes, tuple, Fraction, float)):
